@@ -36,7 +36,7 @@ def configs(thorough):
 
 
 def run(chk):
-    thorough = chk.tier == "thorough"
+    thorough = chk.full
     chk.rule("C07.R1", "one iteration of the loop == the textbook step, slot by slot", floor=4)
     chk.rule("C07.R2", "continuation predicate: i < n_iter and no NaN in params and not early_stopping", floor=2)
     chk.rule("C07.R3", "initial carry", floor=2)
